@@ -43,7 +43,15 @@ class TokSem:
         key = tuple(seq)
         if key not in self.runs:
             self.n_runs += 1
-            self.runs[key] = Interp(self.prog, vec_model=True, loop_bound=8, max_steps=400000).paths(self.f, [('tuple', tuple(seq))])
+            if getattr(self, 'n_budget', 0) > 12:
+                # the stage does not run to completion on concrete partial-token lists (a loop form the interpreter cannot unroll, a
+                # helper whose effect on the cursor it does not see): say so once instead of spending the step budget on every sequence
+                raise ValueError('stage 2 of the tokenizer cannot be interpreted on concrete partial-token lists: %d sequences exceeded the step budget' % self.n_budget)
+            try:
+                self.runs[key] = Interp(self.prog, vec_model=True, loop_bound=8, max_steps=400000).paths(self.f, [('tuple', tuple(seq))])
+            except Budget:
+                self.n_budget = getattr(self, 'n_budget', 0) + 1
+                raise
         return self.runs[key]
 
     def expected_ops(self, kinds):
